@@ -317,3 +317,329 @@ Print Assumptions C21_collect_single.
 Print Assumptions C21_shared_seen.
 Print Assumptions C21_shared_seen_total.
 Print Assumptions C21_ex_sound.
+
+(* ========================================================================= *)
+(** 6. The FAST PATHS of the pure-Python FusedBlockwiseLayer (_frisky/fused_blockwise.py), the only
+       native layer that runs without the Rust extension.  Model: theories/FusedFast.v
+       (`probe_blocks` = _probe_blocks; `analytical` / `uniform` / `site_based` / `seed_spec` = the
+       four derivations of _fast_spec; `fast_record` = _fast_records; a task family
+       `l_task : block id -> task` in canonical form: canonical subgraph + source sites), proofs:
+       theories/FusedFastFacts.v.  harness/c21.py reifies every FusedBlockwise node it meets (every
+       block's real fused task) and compares, inside Coq, the real _probe_blocks, the real result of
+       each of the four derivations (maximal block, inkey order, projections, seed templates and
+       holes, materialized slots) and the set of blocks whose real fast record differs from the
+       real slow record with what the model computes.
+
+       What a record computes is its `eff`: canonical subgraph, output, the source block read at
+       every reference site (depth-first order), the set of dependency keys.  The slow record of a
+       block is the block's own task; `eff_equiv` of the two = same block value.
+
+       FINDING C21-A in one sentence: every derivation decides "the fused subgraph is the same in
+       all blocks" on `probe_blocks` only (theorem 6.3), which is refuted as a decision procedure
+       (6.4) and is complete exactly for literals that take, at every position of their axis, a value
+       seen at a probed position (6.5, 6.6). *)
+From Coq Require Import ZArith Lia.
+From DA Require Import FusedFast FusedFastFacts.
+Close Scope positive_scope.
+Open Scope Z_scope.
+
+(* ------------------------------------------------------------------------- *)
+(** 6.1 Which blocks are probed: block 0, the last block, per axis with more than one block the
+        last and the middle position (other coordinates 0), and the "diagonal" block. *)
+Theorem C21_probe_blocks_spec : forall nb p,
+  In p (probe_blocks nb) <->
+  p = zero_block nb \/ p = map (fun n => n - 1) nb \/
+  (exists i n, nth_error nb i = Some n /\ 1 < n /\
+               (p = set_nth i (n - 1) (zero_block nb) \/ p = set_nth i (n / 2) (zero_block nb))) \/
+  p = diag_block nb.
+Proof. exact probe_blocks_spec. Qed.
+
+(* per axis: positions 0, n-1 and n/2 are probed with all other coordinates 0 ... *)
+Theorem C21_probe_axis_cover : forall nb i n k,
+  nth_error nb i = Some n -> 1 <= n -> (k = 0 \/ k = n - 1 \/ k = n / 2) ->
+  In (set_nth i k (zero_block nb)) (probe_blocks nb).
+Proof. exact probe_axis_cover. Qed.
+
+(* ... and no probe has, on axis i, any position other than 0, n-1, n/2, min(i, n-1) *)
+Theorem C21_probe_positions : forall nb p i n,
+  In p (probe_blocks nb) -> nth_error nb i = Some n ->
+  nth i p 0 = 0 \/ nth i p 0 = n - 1 \/ nth i p 0 = n / 2 \/ nth i p 0 = Z.min (Z.of_nat i) (n - 1).
+Proof. exact probe_positions. Qed.
+
+Theorem C21_probes_in_grid : forall nb p,
+  Forall (fun n => 1 <= n) nb -> In p (probe_blocks nb) -> in_grid nb p.
+Proof. exact probes_in_grid. Qed.
+
+(* ------------------------------------------------------------------------- *)
+(** 6.2 (a) SOUNDNESS UNDER THE REAL HYPOTHESIS.  If the family really is SHARED (every block of the
+        grid has block 0's canonical subgraph) with AFFINE SLOTS (site j of every block reads source
+        s_j at the block an affine projection P_j makes of the block id), then whenever
+        _analytical_site_spec accepts, the record it generates for EVERY block of EVERY grid is the
+        slow path's: the inference by bumping one axis recovers P on the grid, the maximal block,
+        the stable inkey order and the re-ordered projections bind every site to its own block. *)
+Theorem C21_fast_analytical_sound : forall L s (P : list nproj),
+  analytical L = Some s ->
+  shared_everywhere L -> affine_sites L P -> deps_are_sites L ->
+  forall i b, in_grid (l_nb L) b ->
+    eff_equiv (eff_fast L (fast_record L s i b)) (eff_slow (l_task L b)).
+Proof. exact analytical_sound. Qed.
+
+(* _seed_spec: TEMPLATED SEEDS — outside the lifted positions every block has block 0's canonical
+   subgraph, at lifted position k every block carries the literal template k generates — and affine
+   slots: the shared subgraph with its holes filled by the block's seeds is the block's own. *)
+Theorem C21_fast_seed_sound : forall L sh projs tmpls (P : list nproj),
+  seed_spec L = Some (ProjSpec sh projs tmpls) ->
+  seeds_everywhere L (sh_holes sh) tmpls -> canon_keys_unique L ->
+  affine_sites L P -> deps_are_sites L ->
+  forall i b, in_grid (l_nb L) b ->
+    eff_equiv (eff_fast L (fast_record L (ProjSpec sh projs tmpls) i b)) (eff_slow (l_task L b)).
+Proof. exact seed_sound. Qed.
+
+(* the two exact derivations read every block's real coordinates: only sharedness is trusted
+   (`broadcast_everywhere`: the condition _validate_broadcast checks on the probes, at every block) *)
+Theorem C21_fast_uniform_sound : forall L s,
+  uniform L = Some s -> shared_everywhere L -> fuse_wf L -> broadcast_everywhere L ->
+  forall i b, nth_error (all_blocks (l_nb L)) i = Some b ->
+    eff_equiv (eff_fast L (fast_record L s i b)) (eff_slow (l_task L b)).
+Proof. exact uniform_sound. Qed.
+
+Theorem C21_fast_site_based_sound : forall L s,
+  site_based L = Some s -> shared_everywhere L -> deps_are_sites L ->
+  forall i b, nth_error (all_blocks (l_nb L)) i = Some b ->
+    eff_equiv (eff_fast L (fast_record L s i b)) (eff_slow (l_task L b)).
+Proof. exact site_based_sound. Qed.
+
+(* ------------------------------------------------------------------------- *)
+(** 6.3 What the code establishes of `shared_everywhere`: the three derivations that share a
+        subgraph as it is have compared the canonical subgraph of the PROBE blocks with block 0's
+        — `independence_test` — and nothing else. *)
+Theorem C21_fast_paths_test_probes_only : forall L s,
+  analytical L = Some s \/ uniform L = Some s \/ site_based L = Some s -> independence_test L = true.
+Proof. exact fast_paths_test_probes_only. Qed.
+
+(* ------------------------------------------------------------------------- *)
+(** 6.4 (b) The probe test does not decide block independence (finding C21-A): on the grid of
+        -da.ones((6,), chunks=((1,3,1,1),)) (the literal of a block is its size) the test passes, a
+        fast spec is returned, block 1 is not a probe and its generated record is not the slow one. *)
+Theorem C21_probe_test_incomplete_refuted :
+  exists L s b i,
+    independence_test L = true /\ fast_spec L = Some s /\
+    nth_error (all_blocks (l_nb L)) i = Some b /\ ~ In b (probe_blocks (l_nb L)) /\
+    ~ eff_equiv (eff_fast L (fast_record L s i b)) (eff_slow (l_task L b)).
+Proof. exact probe_test_incomplete. Qed.
+
+(* the same with a source (x + da.ones(...), _analytical_site_spec): every hypothesis of 6.2 holds
+   except `shared_everywhere` *)
+Theorem C21_probe_test_incomplete_analytical_refuted :
+  exists L s b i,
+    analytical L = Some s /\ affine_sites L [(3%positive, [PBid 0])] /\ deps_are_sites L /\
+    nth_error (all_blocks (l_nb L)) i = Some b /\ ~ In b (probe_blocks (l_nb L)) /\
+    ~ eff_equiv (eff_fast L (fast_record L s i b)) (eff_slow (l_task L b)).
+Proof. exact probe_test_incomplete_analytical. Qed.
+
+(* ------------------------------------------------------------------------- *)
+(** 6.5 (c) When the probe test IS sufficient.  `covered n a k`: position k of axis a (n blocks) is
+        the position some probe block has on that axis.  Let the canonical subgraph of block b be
+        an injective function (`build`: a term with int holes) of int LEAVES, leaf (a, g) having the
+        value g (b[a]) — it depends on ONE output axis.  If every position of the axis carries the
+        value of some covered position, the test on the probes decides independence on the whole
+        grid.  In particular (second theorem) when every leaf has one value on all INTERIOR
+        positions of its axis, whatever its values at the first and at the last position: uniform
+        chunks with a shorter last and / or a different first block. *)
+Theorem C21_probe_test_complete :
+  forall (L : layer) (build : list Z -> list node * label) (leaves : list (nat * (Z -> Z))),
+  (forall v w, build v = build w -> v = w) ->
+  (forall b, in_grid (l_nb L) b ->
+     (t_nodes (l_task L b), t_out (l_task L b)) = build (map (fun ag : nat * (Z -> Z) => snd ag (nth (fst ag) b 0)) leaves)) ->
+  (forall a g n, In (a, g) leaves -> nth_error (l_nb L) a = Some n ->
+     forall k, 0 <= k < n -> exists k', covered n a k' /\ g k = g k') ->
+  independence_test L = true ->
+  forall b, in_grid (l_nb L) b ->
+    t_nodes (l_task L b) = t_nodes (l_task L (zero_block (l_nb L))) /\
+    t_out (l_task L b) = t_out (l_task L (zero_block (l_nb L))).
+Proof. exact probe_test_complete. Qed.
+
+Theorem C21_probe_test_complete_interior :
+  forall (L : layer) (build : list Z -> list node * label) (leaves : list (nat * (Z -> Z))),
+  (forall v w, build v = build w -> v = w) ->
+  (forall b, in_grid (l_nb L) b ->
+     (t_nodes (l_task L b), t_out (l_task L b)) = build (map (fun ag : nat * (Z -> Z) => snd ag (nth (fst ag) b 0)) leaves)) ->
+  (forall a g n, In (a, g) leaves -> nth_error (l_nb L) a = Some n ->
+     forall k k', 0 < k < n - 1 -> 0 < k' < n - 1 -> g k = g k') ->
+  independence_test L = true ->
+  forall b, in_grid (l_nb L) b ->
+    t_nodes (l_task L b) = t_nodes (l_task L (zero_block (l_nb L))) /\
+    t_out (l_task L b) = t_out (l_task L (zero_block (l_nb L))).
+Proof. exact probe_test_complete_interior. Qed.
+
+(* every covered position is a position of a probe block *)
+Theorem C21_covered_probed : forall nb a n k,
+  Forall (fun n => 1 <= n) nb -> nth_error nb a = Some n -> covered n a k ->
+  0 <= k < n /\ exists p, In p (probe_blocks nb) /\ nth a p 0 = k.
+Proof. exact covered_probed. Qed.
+
+(** 6.6 ... and `covered` is exact: in one dimension, for EVERY position that is not covered there is a
+        family (literal 3 there, 1 elsewhere) that passes every test of the fast path and whose
+        generated record is wrong at that position.  (n = 4, k = 1 is finding C21-A.) *)
+Theorem C21_probe_cover_exact_1d : forall n k, 0 <= k < n -> ~ covered n 0 k ->
+  let L := spike_layer n k in
+  independence_test L = true /\
+  exists s, fast_spec L = Some s /\
+    nth_error (all_blocks (l_nb L)) (Z.to_nat k) = Some [k] /\
+    ~ eff_equiv (eff_fast L (fast_record L s (Z.to_nat k) [k])) (eff_slow (l_task L [k])).
+Proof. exact probe_cover_exact_1d. Qed.
+
+(** 6.7 (c) + (a): for such families an accepted fast path is right at every block. *)
+Theorem C21_fast_analytical_sound_when_covered :
+  forall (L : layer) (build : list Z -> list node * label) (leaves : list (nat * (Z -> Z))),
+  (forall v w, build v = build w -> v = w) ->
+  (forall b, in_grid (l_nb L) b ->
+     (t_nodes (l_task L b), t_out (l_task L b)) = build (map (fun ag : nat * (Z -> Z) => snd ag (nth (fst ag) b 0)) leaves)) ->
+  (forall a g n, In (a, g) leaves -> nth_error (l_nb L) a = Some n ->
+     forall k, 0 <= k < n -> exists k', covered n a k' /\ g k = g k') ->
+  (forall b, in_grid (l_nb L) b -> t_ok (l_task L b) = true) ->
+  forall s P, analytical L = Some s -> affine_sites L P -> deps_are_sites L ->
+  forall i b, in_grid (l_nb L) b -> eff_equiv (eff_fast L (fast_record L s i b)) (eff_slow (l_task L b)).
+Proof. exact analytical_sound_covered. Qed.
+
+Theorem C21_fast_uniform_sound_when_covered :
+  forall (L : layer) (build : list Z -> list node * label) (leaves : list (nat * (Z -> Z))),
+  (forall v w, build v = build w -> v = w) ->
+  (forall b, in_grid (l_nb L) b ->
+     (t_nodes (l_task L b), t_out (l_task L b)) = build (map (fun ag : nat * (Z -> Z) => snd ag (nth (fst ag) b 0)) leaves)) ->
+  (forall a g n, In (a, g) leaves -> nth_error (l_nb L) a = Some n ->
+     forall k, 0 <= k < n -> exists k', covered n a k' /\ g k = g k') ->
+  (forall b, in_grid (l_nb L) b -> t_ok (l_task L b) = true) ->
+  forall s, uniform L = Some s -> fuse_wf L -> broadcast_everywhere L ->
+  forall i b, nth_error (all_blocks (l_nb L)) i = Some b ->
+    eff_equiv (eff_fast L (fast_record L s i b)) (eff_slow (l_task L b)).
+Proof. exact uniform_sound_covered. Qed.
+
+Theorem C21_fast_site_based_sound_when_covered :
+  forall (L : layer) (build : list Z -> list node * label) (leaves : list (nat * (Z -> Z))),
+  (forall v w, build v = build w -> v = w) ->
+  (forall b, in_grid (l_nb L) b ->
+     (t_nodes (l_task L b), t_out (l_task L b)) = build (map (fun ag : nat * (Z -> Z) => snd ag (nth (fst ag) b 0)) leaves)) ->
+  (forall a g n, In (a, g) leaves -> nth_error (l_nb L) a = Some n ->
+     forall k, 0 <= k < n -> exists k', covered n a k' /\ g k = g k') ->
+  (forall b, in_grid (l_nb L) b -> t_ok (l_task L b) = true) ->
+  forall s, site_based L = Some s -> deps_are_sites L ->
+  forall i b, nth_error (all_blocks (l_nb L)) i = Some b ->
+    eff_equiv (eff_fast L (fast_record L s i b)) (eff_slow (l_task L b)).
+Proof. exact site_based_sound_covered. Qed.
+
+(* ------------------------------------------------------------------------- *)
+(** Examples: the hypotheses are satisfiable on non-trivial families, and the statements compute. *)
+
+(* x - y.T on a 2 x 3 grid: two sources, the second read through a transposed block map *)
+Definition ex_xyT : layer :=
+  mklayer [2; 3] [3%positive; 4%positive] [[2; 3]; [3; 2]] [Some [2; 2]; Some [1; 2; 1]]
+    (fun b => let s := [(3%positive, [nth 0 b 0; nth 1 b 0]); (4%positive, [nth 1 b 0; nth 0 b 0])] in
+              mktask true [mknode 1 10 [LRef (BIn 3); LRef (BNode 2)] nokw; mknode 2 11 [LRef (BIn 4)] nokw] (BNode 1)
+                     s (Some s) s).
+Definition ex_xyT_P : list nproj := [(3%positive, [PBid 0; PBid 1]); (4%positive, [PBid 1; PBid 0])].
+
+Example C21_ex_analytical_hyps :
+  analytical ex_xyT = Some (ProjSpec (mkshared [0; 0] [(3%positive, [0; 0]); (4%positive, [0; 0])] [])
+                                     [(0%nat, [PBid 0; PBid 1]); (1%nat, [PBid 1; PBid 0])] []) /\
+  shared_everywhere ex_xyT /\ affine_sites ex_xyT ex_xyT_P /\ deps_are_sites ex_xyT /\
+  bad_blocks ex_xyT (ProjSpec (mkshared [0; 0] [(3%positive, [0; 0]); (4%positive, [0; 0])] [])
+                              [(0%nat, [PBid 0; PBid 1]); (1%nat, [PBid 1; PBid 0])] []) = [].
+Proof.
+  split; [vm_compute; reflexivity|]. split; [intros b Hb; repeat split; reflexivity|].
+  split; [intros b Hb; reflexivity|]. split; [|vm_compute; reflexivity].
+  intros b s Hb Hs k. cbn in Hs. inversion Hs. reflexivity.
+Qed.
+
+(* map_blocks(f, x, block_id=...) on a 1-d grid of 4 blocks: the literal (b,) is lifted into a seed *)
+Definition ex_bid : layer :=
+  mklayer [4] [3%positive] [[4]] [Some [2; 2; 2; 2]]
+    (fun b => let s := [(3%positive, [nth 0 b 0])] in
+              mktask true [mknode 1 10 [LRef (BIn 3); LSeq KTuple [LInt (nth 0 b 0)]] nokw] (BNode 1) s (Some s) s).
+
+Example C21_ex_seed_hyps :
+  seed_spec ex_bid = Some (ProjSpec (mkshared [0] [(3%positive, [0])] [(1%positive, 1%nat)]) [(0%nat, [PBid 0])] [TSeq true [TBid 0]]) /\
+  seeds_everywhere ex_bid [(1%positive, 1%nat)] [TSeq true [TBid 0]] /\ canon_keys_unique ex_bid /\
+  affine_sites ex_bid [(3%positive, [PBid 0])] /\ deps_are_sites ex_bid /\
+  analytical ex_bid = None /\ uniform ex_bid = None /\ site_based ex_bid = None.
+Proof.
+  split; [vm_compute; reflexivity|].
+  split; [intros b Hb; cbn; repeat split; auto|].
+  split; [intros b Hb; cbn; constructor; [intros [] | constructor]|].
+  split; [intros b Hb; reflexivity|].
+  split; [intros b s Hb Hs k; cbn in Hs; inversion Hs; reflexivity|].
+  repeat split; vm_compute; reflexivity.
+Qed.
+
+(* the finding's family satisfies every hypothesis of 6.2 / of the exact derivation EXCEPT sharedness,
+   and the interior-positions hypothesis of 6.5 fails for it exactly at block 1 (1 <> 3) *)
+Example C21_ex_c21a :
+  fast_spec_path c21a_layer = Some (PUniform, MatSpec (mkshared [0] [] []) [[]; []; []; []]) /\
+  bad_blocks c21a_layer (MatSpec (mkshared [0] [] []) [[]; []; []; []]) = [[1]] /\
+  fuse_wf c21a_layer /\ broadcast_everywhere c21a_layer /\
+  probe_blocks [4] = [[0]; [3]; [3]; [2]; [0]] /\ ~ covered 4 0 1.
+Proof.
+  split; [vm_compute; reflexivity|]. split; [vm_compute; reflexivity|].
+  split; [intros b Hb; exists []; cbn; repeat split; auto; intros s0 E; inversion E; reflexivity|].
+  split; [intros src E V b Hb k; cbn in E; inversion E; subst; cbn; tauto|].
+  split; [reflexivity|]. unfold covered. cbn. lia.
+Qed.
+
+(* uniform chunks with a different first and a shorter last block, (2,5,5,5,3): the leaf "size of the
+   block" has one value on the interior, so 6.5 applies; here the test (rightly) fails: 2 <> 5 *)
+Example C21_ex_interior :
+  let L := mklayer [5] [] [] [Some [2; 5; 5; 5; 3]] (fun b => creation_task (nth (Z.to_nat (nth 0 b 0)) [2; 5; 5; 5; 3] 0)) in
+  (forall k k', 0 < k < 5 - 1 -> 0 < k' < 5 - 1 -> nth (Z.to_nat k) [2; 5; 5; 5; 3] 0 = nth (Z.to_nat k') [2; 5; 5; 5; 3] 0) /\
+  independence_test L = false /\ fast_spec L = None.
+Proof.
+  split; [|split; vm_compute; reflexivity].
+  intros k k' Hk Hk'. assert (E : (k = 1 \/ k = 2 \/ k = 3) /\ (k' = 1 \/ k' = 2 \/ k' = 3)) by lia.
+  destruct E as [[?|[?|?]] [?|[?|?]]]; subst; reflexivity.
+Qed.
+
+Print Assumptions C21_probe_blocks_spec.
+Print Assumptions C21_probe_axis_cover.
+Print Assumptions C21_probe_positions.
+Print Assumptions C21_probes_in_grid.
+Print Assumptions C21_fast_analytical_sound.
+Print Assumptions C21_fast_seed_sound.
+Print Assumptions C21_fast_uniform_sound.
+Print Assumptions C21_fast_site_based_sound.
+Print Assumptions C21_fast_paths_test_probes_only.
+Print Assumptions C21_probe_test_incomplete_refuted.
+Print Assumptions C21_probe_test_incomplete_analytical_refuted.
+Print Assumptions C21_probe_test_complete.
+Print Assumptions C21_probe_test_complete_interior.
+Print Assumptions C21_covered_probed.
+Print Assumptions C21_probe_cover_exact_1d.
+Print Assumptions C21_fast_analytical_sound_when_covered.
+Print Assumptions C21_fast_uniform_sound_when_covered.
+Print Assumptions C21_fast_site_based_sound_when_covered.
+
+(* ------------------------------------------------------------------------- *)
+(** 6.8 Two further facts about the validation.
+        (i) The well-formedness hypotheses of 6.2 (`fuse_wf`, `deps_are_sites`, `canon_keys_unique`)
+        follow from a boolean that harness/c21.py evaluates inside Coq on EVERY real family for which
+        a fast path is taken.
+        (ii) The probes validate the reads of a block as a MULTISET (`sorted(...) == sorted(...)`): the
+        binding of reference sites to source blocks is inferred from the bumps, never checked — a
+        truly shared family whose two sites of one source are swapped at a PROBED block is accepted
+        and gets a wrong record there.  (Model-level: dask_array's block maps are per-site functions
+        of the block id, no expression produces this family; harness/c21.py replays it on the real
+        FusedBlockwiseLayer with a stub expression.) *)
+Theorem C21_family_wf_sound : forall L,
+  family_wf_b L = true -> fuse_wf L /\ deps_are_sites L /\ canon_keys_unique L.
+Proof. exact family_wf_sound. Qed.
+
+Theorem C21_probe_validation_is_multiset_refuted :
+  exists L s b i,
+    analytical L = Some s /\ shared_everywhere L /\ deps_are_sites L /\
+    nth_error (all_blocks (l_nb L)) i = Some b /\ In b (probe_blocks (l_nb L)) /\
+    ~ eff_equiv (eff_fast L (fast_record L s i b)) (eff_slow (l_task L b)).
+Proof. exact probe_validation_is_multiset. Qed.
+
+Example C21_ex_family_wf : family_wf_b ex_xyT = true /\ family_wf_b ex_bid = true /\ family_wf_b c21a_src_layer = true.
+Proof. repeat split; vm_compute; reflexivity. Qed.
+
+Print Assumptions C21_family_wf_sound.
+Print Assumptions C21_probe_validation_is_multiset_refuted.
